@@ -42,11 +42,14 @@ def mutable_values(tier):
     sets = st.lists(ints, max_size=3).map(lambda xs: ["set", xs])
     pt = st.tuples(st.one_of(ints, lst), lst).map(lambda t: ["call", "Point", [["x", t[0]], ["y", t[1]]]])
     ap = st.tuples(ints, lst).map(lambda t: ["call", "APoint", [["a", t[0]], ["b", t[1]]]])
-    return st.one_of(lst, lst, nested, dct, sets, pt, ap)
+    # tuples / namedtuples are only shallowly immutable
+    tup = st.tuples(ints, lst).map(lambda t: ["tuple", [t[0], t[1]]])
+    ntp = st.tuples(lst, ints).map(lambda t: ["call", "NT", [["a", t[0]], ["b", t[1]]]])
+    return st.one_of(lst, lst, nested, dct, sets, pt, ap, tup, ntp)
 
 
 MUTS = ["append", "clear", "setitem0", "nested_append", "dict_set", "dict_clear", "set_add", "attr_x",
-        "attr_y_append", "attr_b_append"]
+        "attr_y_append", "attr_b_append", "tuple_inner_append", "nt_inner_append", "tuple_inner_append"]
 
 
 def apply_mut(obj, mut, n):
@@ -78,6 +81,12 @@ def apply_mut(obj, mut, n):
     if mut == "attr_y_append" and type(obj).__name__ == "Point" and isinstance(obj.y, list):
         obj.y.append(n)
         return "{v}.y.append(%d)" % n
+    if mut == "tuple_inner_append" and type(obj) is tuple and len(obj) == 2 and isinstance(obj[1], list):
+        obj[1].append(n)
+        return "{v}[1].append(%d)" % n
+    if mut == "nt_inner_append" and type(obj).__name__ == "NT" and isinstance(obj.a, list):
+        obj.a.append(n)
+        return "{v}.a.append(%d)" % n
     if mut == "attr_b_append" and type(obj).__name__ == "APoint" and isinstance(obj.b, list):
         obj.b.append(n)
         return "{v}.b.append(%d)" % n
